@@ -1,0 +1,14 @@
+//go:build verif
+
+package apd
+
+// VerifTape, when set by the verification harness, receives the decisions that Exp and Ln take in
+// float64 arithmetic (working-precision bump, number of series terms, starting estimate), in the
+// order they are taken. Only compiled with the build tag "verif".
+var VerifTape func(kind string, n int64, d *Decimal)
+
+func verifTape(kind string, n int64, d *Decimal) {
+	if f := VerifTape; f != nil {
+		f(kind, n, d)
+	}
+}
